@@ -2,6 +2,8 @@ package activeauth
 
 import (
 	"crypto"
+	"crypto/ecdsa"
+	"crypto/elliptic"
 	"math/big"
 
 	cms "github.com/gmrtd/gmrtd/cms"
@@ -206,4 +208,131 @@ func verifH_C07_challenge() {
 	if res != nil && res.Evidence != nil {
 		verifAssertSeqEqual(res.Evidence.Nonce, c0, "the supplied challenge is what the evidence records")
 	}
+}
+
+// ---- ECDSA branch with the signature primitive and the DER decoder stubbed ---------------------
+
+type verifEcCall struct {
+	hash    []byte
+	r, s    *big.Int
+	verdict bool
+}
+
+var verifEcCalls []verifEcCall
+var verifEcBits int
+var verifDerR, verifDerS []byte
+var verifDerOK bool
+
+type verifCurveBits struct{ bits int }
+
+func (c verifCurveBits) Params() *elliptic.CurveParams {
+	nb := make([]byte, (c.bits+7)/8)
+	nb[0] = byte(1 << uint((c.bits-1)%8))
+	return &elliptic.CurveParams{N: new(big.Int).SetBytes(nb), BitSize: c.bits}
+}
+func (verifCurveBits) IsOnCurve(x, y *big.Int) bool                             { return true }
+func (verifCurveBits) Add(x1, y1, x2, y2 *big.Int) (*big.Int, *big.Int)         { return x1, y1 }
+func (verifCurveBits) Double(x1, y1 *big.Int) (*big.Int, *big.Int)              { return x1, y1 }
+func (verifCurveBits) ScalarMult(x, y *big.Int, k []byte) (*big.Int, *big.Int) { return x, y }
+func (verifCurveBits) ScalarBaseMult(k []byte) (*big.Int, *big.Int)            { return new(big.Int), new(big.Int) }
+
+func verifStubSpkiEc(data []byte) (cms.SubjectPublicKeyInfo, error) {
+	var out cms.SubjectPublicKeyInfo
+	out.Algorithm.Algorithm = oid.OidEcPublicKey
+	return out, nil
+}
+
+func verifStubEcCurveAndPubKey(spki *cms.SubjectPublicKeyInfo, fallback bool) (*elliptic.Curve, *cryptoutils.EcPoint, error) {
+	var c elliptic.Curve = verifCurveBits{bits: verifEcBits}
+	return &c, &cryptoutils.EcPoint{X: big.NewInt(1), Y: big.NewInt(2)}, nil
+}
+
+func verifStubEcdsaVerify(pub *ecdsa.PublicKey, hash []byte, r, s *big.Int) bool {
+	v := verifBool()
+	verifEcCalls = append(verifEcCalls, verifEcCall{hash: append([]byte(nil), hash...), r: r, s: s, verdict: v})
+	return v
+}
+
+// the DER decoder: either "not a DER signature" or arbitrary (possibly zero) integers
+func verifStubAsn1Unmarshal(b []byte, val any) ([]byte, error) {
+	sig, ok := val.(*EcdsaSignature)
+	if !ok {
+		panic("unexpected asn1.Unmarshal target")
+	}
+	if !verifDerOK {
+		return nil, verifErr{}
+	}
+	sig.R, sig.S = new(big.Int).SetBytes(verifDerR), new(big.Int).SetBytes(verifDerS)
+	return nil, nil
+}
+
+func verifAllZero(x []byte) bool {
+	acc := byte(0)
+	for _, v := range x {
+		acc |= v
+	}
+	return acc == 0
+}
+
+// verifH_C07_ecdsa: responses of n bytes (first byte free, so both the plain and the DER route are
+// taken); ecdsa.Verify answers arbitrarily per call. Accepted exactly when a verification that
+// returned true was made over H(challenge) and either the two halves of the response (plain r‖s)
+// or - for a response starting with 30 that decodes as DER with positive integers - the decoded pair.
+func verifH_C07_ecdsa() {
+	n := verifParam("N")
+	verifEcBits = verifParam("bits")
+	verifEcCalls = nil
+	resp := verifBytes(n)
+	challenge := verifBytes(8)
+	verifDerOK = verifBool()
+	verifDerR, verifDerS = verifBytes(2), verifBytes(2)
+	res, err := ValidateActiveAuthSignature(&document.DG15{SubjectPublicKeyInfoBytes: []byte{0x30, 0x00}}, append([]byte(nil), resp...), append([]byte(nil), challenge...))
+	verifReach("validated")
+	verifAssert(res != nil && res.Evidence != nil, "a result with evidence is reported")
+	if res == nil {
+		return
+	}
+	hname := "sha224"
+	switch {
+	case verifEcBits >= 512:
+		hname = "sha512"
+	case verifEcBits >= 384:
+		hname = "sha384"
+	case verifEcBits >= 256:
+		hname = "sha256"
+	}
+	want := verifHash(hname, challenge)
+	half := n / 2
+	plainOK := n > 0 && n%2 == 0 && !verifAllZero(resp[:half]) && !verifAllZero(resp[half:])
+	idx, exp := 0, false
+	if plainOK {
+		verifAssert(len(verifEcCalls) >= 1, "a plain r‖s response is verified")
+		if len(verifEcCalls) < 1 {
+			return
+		}
+		c := verifEcCalls[0]
+		rb, sb := make([]byte, half), make([]byte, half)
+		c.r.FillBytes(rb)
+		c.s.FillBytes(sb)
+		verifAssertSeqEqual(rb, resp[:half], "plain: r is the first half of the response")
+		verifAssertSeqEqual(sb, resp[half:], "plain: s is the second half of the response")
+		verifAssertSeqEqual(c.hash, want, "verified over the hash of the challenge (hash chosen by the key size)")
+		exp = c.verdict
+		idx = 1
+	}
+	if !exp && n > 0 && resp[0] == 0x30 && verifDerOK && !verifAllZero(verifDerR) && !verifAllZero(verifDerS) {
+		verifAssert(len(verifEcCalls) == idx+1, "a DER response is verified")
+		if len(verifEcCalls) != idx+1 {
+			return
+		}
+		c := verifEcCalls[idx]
+		verifAssert(c.r.Cmp(new(big.Int).SetBytes(verifDerR)) == 0 && c.s.Cmp(new(big.Int).SetBytes(verifDerS)) == 0, "DER: the decoded pair is verified")
+		verifAssertSeqEqual(c.hash, want, "verified over the hash of the challenge (hash chosen by the key size)")
+		exp = c.verdict
+	}
+	if res.Success {
+		verifReach("accepted")
+	}
+	verifAssert(res.Success == exp, "accepted exactly when a signature verification over the challenge succeeded")
+	verifAssert((err == nil) == exp, "error exactly when not accepted")
 }
